@@ -349,6 +349,9 @@ Value Search::search(Position& position, Depth depth, Value alpha, Value beta,
     const bool ROOT_NODE = info->_ply == 0;
     const bool PV_NODE = beta != alpha + 1;
     const bool IS_NULL = (info - 1)->_current_move == NO_MOVE;
+    // the result of a root restricted by `searchmoves` says nothing about the
+    // position itself, so it must not be stored under the position's key
+    const bool RESTRICTED_ROOT = ROOT_NODE && limits.searchmovesnum > 0;
 
     LOG_DEBUG("[%d] ENTER SEARCH depth=%d alpha=%ld beta=%ld pvNode=%d fen=%s",
               info->_ply, depth, alpha, beta, static_cast<int>(PV_NODE), position.fen().c_str());
@@ -609,7 +612,7 @@ Value Search::search(Position& position, Depth depth, Value alpha, Value beta,
                     }
 
                     // values computed from an aborted subtree are meaningless
-                    if (!stop_search)
+                    if (!stop_search && !RESTRICTED_ROOT)
                     {
                         tt::TTEntry entry(result, depth, tt::Flag::kLOWER_BOUND,
                                           move);
@@ -644,7 +647,7 @@ Value Search::search(Position& position, Depth depth, Value alpha, Value beta,
         best_move = begin[0];
         set_new_pv_list(info, best_move);
     }
-    else if (!stop_search)  // see above: nothing is stored once the search is aborted
+    else if (!stop_search && !RESTRICTED_ROOT)  // see above
     {
         tt::Flag flag = PV_NODE ? tt::Flag::kEXACT : tt::Flag::kUPPER_BOUND;
         tt::TTEntry entry(bestValue, depth, flag, best_move);
